@@ -113,7 +113,9 @@ def _pool(rng, tier: str):
         envspecs[f"e{i}"] = spec
     envs = sorted(envspecs)
     queries = []
-    for _ in range(rng.choice((1, 2, 3))):
+    if rng.random() < 0.35:
+        queries.extend(H.query_family(rng, rng.choice((2, 3))))
+    for _ in range(rng.choice((1, 2, 3)) if not queries else rng.choice((0, 1))):
         if rng.random() < 0.45:
             queries.append(rng.choice(SUSPEND_QUERIES))
         else:
